@@ -19,6 +19,7 @@ LEVEL_TEXT = ("Table agreement and protocol analysis on the MIR of functions.rs:
 LEVEL_NOTE = ("Not decided: the computed values (formatting text, regex replacement results, that node facts equal tree-sitter's).")
 LEVEL_TEXT += (' Also: (CORE) each stdlib function computes its result with the documented primitive (regex replace_all, slice join, tree-sitter node accessors, checked arithmetic ...) applied to its own parameters in declaration order; (V) the Value coercions accept exactly the named variant and fail with ExpectedX otherwise; (E2.d) no failure inside a stdlib function is dropped.')
 LEVEL_TEXT += (' A variadic loop ends when `param()` itself fails — not when a coercion chained onto it fails.')
+LEVEL_TEXT += (' (E5.eq) `eq` compares with the derived, field-by-field equality of Value, SyntaxNodeRef (node identity included) and GraphNodeRef (shared with C09).')
 
 VARIADIC = {"and", "or", "plus", "concat"}
 DOC_ARITY = {"none": 0, "one": 1, "two": 2, "a list value": 1, "list values": "variadic", "zero or more": "variadic"}
@@ -147,6 +148,10 @@ def value_coercions(prog, rep, only=None):
 
 
 def run(prog, rep):
+    # `eq` (and set membership of values) is Value's equality: it must be the derived, field-by-field one (shared with C09)
+    from ..engines import e5_writers as _e5
+    _e5.value_equality_structural(prog, rep, "E5.eq")
+    rep.rule("E5.eq", "equality/hash/order of Value, SyntaxNodeRef and GraphNodeRef are the derived, field-by-field ones (the contract of `eq`)")
     rep.rule("E8.f", "registered stdlib names = documented function headings; documented arity class = extracted parameter protocol")
     table = stdlib_table(prog)
     docs = doc_headings()
